@@ -353,6 +353,18 @@ func replaceEntities(b []byte, i int, entitiesMap map[string][]byte, revEntities
 			}
 		}
 
+		if len(r) == 1 && (r[0] >= '0' && r[0] <= '9' || r[0] >= 'a' && r[0] <= 'z' || r[0] >= 'A' && r[0] <= 'Z' || r[0] == '#' || r[0] == ';') {
+			// check if the replacement would continue or terminate a preceding unterminated reference, for example &#x&#65; or &am&#112;; or &amp&#59;
+			// named references have a maximum length, numeric references do not
+			k := i - 1
+			for 0 <= k && (i-k <= MaxEntityLength+2 && (b[k] >= 'g' && b[k] <= 'z' || b[k] >= 'G' && b[k] <= 'Z') || b[k] >= '0' && b[k] <= '9' || b[k] >= 'a' && b[k] <= 'f' || b[k] >= 'A' && b[k] <= 'F' || b[k] == 'x' || b[k] == 'X' || b[k] == '#') {
+				k--
+			}
+			if 0 <= k && b[k] == '&' {
+				return b, j
+			}
+		}
+
 		copy(b[i:], r)
 		copy(b[i+len(r):], b[j+1:])
 		b = b[:len(b)-n+len(r)]
